@@ -65,14 +65,20 @@ def check_exits(ctx, prog, fn, rule="c12.exit"):
                 num, den = origin_desc(strip(q[2])), origin_desc(strip(q[3]))
                 # all the early exits dominate the final value
                 cds = [origin_desc(c[0]) for c in conds]
-                if "num_intersects" in num and "ray_origins" in show(q[3]) and any("is_empty(ray_origins)" in c for c in cds):
-                    found["fraction"] = True
+                if "ray_origins" in show(q[3]):
+                    found["fraction-seen"] = True
+                    if any("is_empty(ray_origins)" in c for c in cds):
+                        found["fraction"] = True
     for k, what in (("wall-missing", "window's wall missing -> 1.0"), ("wall-without-position", "wall without geometric position -> 1.0"),
                     ("no-sample-points", "window without sample points -> 1.0"), ("sun-behind", "normal . ray < 0.01 -> 0.0"),
                     ("fraction", "otherwise 1 - blocked / rays with a non-zero ray count")):
         key = "%s|%s" % (rule, k)
         if found.get(k):
             ctx.ok(rule, key, what, fn.loc())
+        elif k in ("fraction", "no-sample-points") and not found.get("fraction-seen"):
+            # the value `1 - blocked / rays` is not written in this function any more (moved or re-spelled): nothing to hold against the code
+            raise AnalysisError("%s: the returned `1 - blocked / rays` (rays = number of sample points) was not found: cannot decide how a window without sample points is handled"
+                                % fn.path.split("::")[-1])
         else:
             ctx.violation(rule, key, "return site `%s` not found in %s (sites: %s)" % (what, fn.path.split("::")[-1], [(show(n)[:30], cond_text(c)[-80:]) for n, c, b in sites][:5]), fn.loc())
     return sites
